@@ -184,15 +184,17 @@ class World:
             n += 1
         return n
 
-    def advance(self, max_dt: float | None) -> bool:
-        """Blocked actor hands over: jump to the earliest of next event / now+max_dt.  Returns False when there is
+    def advance(self, max_dt: float | None, until: float | None = None) -> bool:
+        """Blocked actor hands over: jump to the earliest of next event / now+max_dt (or the absolute time `until`,
+        which avoids float absorption when the caller holds an absolute deadline).  Returns False when there is
         nothing to wait for (no events, no timeout) = deadlock from the caller's point of view."""
         nxt = self.next_event_time()
-        if nxt is None and max_dt is None:
+        if nxt is None and max_dt is None and until is None:
             return False
-        target = nxt if nxt is not None else self.now + max_dt
-        if max_dt is not None:
-            target = min(target, self.now + max_dt)
+        limit = until if until is not None else (self.now + max_dt if max_dt is not None else None)
+        target = nxt if nxt is not None else limit
+        if limit is not None:
+            target = min(target, limit)
         if target > self.now:
             self.counters_time(target - self.now)
             self.now = target
